@@ -312,6 +312,23 @@ def run(m: Model, r: Report, tier: str) -> None:
     ereq_ = m.require_function(f"{ECU}.ECU._request")
     upd_guard = [n for n in ast.walk(ereq_.node) if isinstance(n, ast.If) and any("self.update_state(" in ast.unparse(b) for b in n.body)]
     client_keeps = len(upd_guard) == 1 and m.mtext(ereq_, upd_guard[0].test) in ("response is not None", "_L is not None")
+    # the client derives its state from every reply it logs - also one it then rejects as mismatching / malformed - because the replaying server derives its
+    # state from every recorded reply: the guard of update_state depends on the presence of a response alone (complete truth table over response x exception)
+    from sa.util import truth_table as _tt12
+    if len(upd_guard) == 1:
+        gnames = sorted({x.id for x in ast.walk(upd_guard[0].test) if isinstance(x, ast.Name)})
+        resp_names = [g_ for g_ in gnames if g_ in {t_.id for a_ in ast.walk(ereq_.node) if isinstance(a_, ast.Assign) for t_ in a_.targets if isinstance(t_, ast.Name)
+                                                     and isinstance(a_.value, ast.Await)} or g_ == "response"]
+        if len(resp_names) != 1:
+            raise AnalysisError(f"{ereq_.qualname}: cannot identify the response variable in `{ast.unparse(upd_guard[0].test)}`")
+        rv_ = resp_names[0]
+        atoms_ = {g_: ([None, "R"] if g_ == rv_ else [None, "E"]) for g_ in gnames}
+        badg = _tt12([(upd_guard[0].test, True)], atoms_, lambda a: a[rv_] is not None)
+        r.check(not badg, "R1", f"{ereq_.qualname}#state-from-every-logged-reply", f"update_state is skipped / run on {badg[:3]}: the client must derive its state from every reply it "
+                "logs (the replaying server does, and looks the following rows up in that state)", loc=ereq_.loc)
+    else:
+        r.check(False, "R1", f"{ereq_.qualname}#state-from-every-logged-reply", f"{len(upd_guard)} guarded update_state calls in the request path; expected one, guarded by the "
+                "presence of a response", loc=ereq_.loc)
     silent_path_mut = [n for n in walk_no_nested(rad.node) if isinstance(n, ast.Expr) and isinstance(n.value, ast.Call) and ast.unparse(n.value.func).startswith("self.state.")
                        and not any(n is x for pc in pcalls for t_ in ast.walk(rad.node) if isinstance(t_, ast.If) and any(pc is y for y in ast.walk(t_)) and t_.test is not None
                                    and "response_pdu" in ast.unparse(t_.test) for b_ in t_.body for x in ast.walk(b_))]
